@@ -529,6 +529,7 @@ def c14_open_files(model, meta):
             f.write(build_stat(pid, b"x", stat_fields(__import__("random").Random(3))))
         with open(f"{d}/stat", "wb") as f:
             f.write(b"cpu  1 2 3 4 5 6 7 8 9 10\nbtime 1700000000\n")
+        closing = {}
         for fd, kind, flags, pos in entries:
             if kind == "file":
                 tgt = f"{d}/files/f{fd}"
@@ -548,9 +549,13 @@ def c14_open_files(model, meta):
                 tgt = f"rel/path{fd}"
             elif kind == "dir":
                 tgt = f"{d}/files"
-            elif kind == "nofdinfo":
+            elif kind in ("nofdinfo", "esrch_fdinfo", "esrch_readlink", "enoent_readlink"):
+                # descriptors that close between the directory listing and their inspection (the kernel answers
+                # ENOENT or ESRCH, at readlink() or when the fdinfo file is opened)
                 tgt = f"{d}/files/n{fd}"
                 open(tgt, "w").close()
+                if kind != "nofdinfo":
+                    closing[f"{d}/{pid}/fdinfo/{fd}" if kind == "esrch_fdinfo" else f"{d}/{pid}/fd/{fd}"] = kind
             os.symlink(tgt, f"{d}/{pid}/fd/{fd}")
             if kind != "nofdinfo":
                 with open(f"{d}/{pid}/fdinfo/{fd}", "w") as f:
@@ -559,10 +564,26 @@ def c14_open_files(model, meta):
                 want.append((tgt, fd, pos, expected_mode(flags), flags))
         old = psutil.PROCFS_PATH
         psutil.PROCFS_PATH = d
+        import builtins
+        real_open, real_readlink = builtins.open, os.readlink
+
+        def f_open(file, *a, **k):
+            if isinstance(file, str) and closing.get(file) == "esrch_fdinfo":
+                raise ProcessLookupError(3, "No such process", file)
+            return real_open(file, *a, **k)
+
+        def f_readlink(path, *a, **k):
+            kind_ = closing.get(os.fsdecode(path))
+            if kind_ == "esrch_readlink":
+                raise ProcessLookupError(3, "No such process", path)
+            if kind_ == "enoent_readlink":
+                raise FileNotFoundError(2, "No such file or directory", path)
+            return real_readlink(path, *a, **k)
         try:
             p = _pslinux.Process(pid)
             try:
-                res, exc = p.open_files(), None
+                with mock.patch.object(builtins, "open", f_open), mock.patch.object(os, "readlink", f_readlink):
+                    res, exc = p.open_files(), None
             except Exception as e:  # noqa: BLE001
                 res, exc = None, e
         finally:
@@ -583,13 +604,17 @@ def c14_open_files(model, meta):
 def c14_open_files_search(meta, seed, budget):
     import random
     rng = random.Random(seed)
-    kinds = ["file", "deleted_gone", "deleted_exists", "socket", "pipe", "device", "relative", "dir", "nofdinfo"]
+    kinds = ["file", "deleted_gone", "deleted_exists", "socket", "pipe", "device", "relative", "dir", "nofdinfo",
+             "esrch_fdinfo", "esrch_readlink", "enoent_readlink"]
     extras = [0, os.O_APPEND, os.O_CREAT | os.O_TRUNC, os.O_CLOEXEC, os.O_APPEND | os.O_CLOEXEC | 0o100000]
     n = 0
     for acc in range(4):
         for ex in extras:
             yield {"fds": [(3, "file", acc | ex, 0)]}
             n += 1
+    for kind in kinds:
+        yield {"fds": [(3, "file", 2, 5), (4, kind, 1, 0), (5, "file", 0, 9)]}
+        n += 1
     while n < budget:
         k = rng.randrange(0, 7)
         yield {"fds": [(3 + i, rng.choice(kinds), rng.randrange(4) | rng.choice(extras), rng.choice([0, 1, 2 ** 40, 2 ** 63 - 1]))
